@@ -60,6 +60,17 @@ def directed():
     S.append(('waiter-on-two-keys-both-pushed', [('open', 1), ('open', 2), ('open', 3), ('send', 1, B('BLPOP', 'a', 'b', 0)), ('sync',), ('send', 3, B('BLPOP', 'b', 0)), ('sync',),
                                                  ('send', 2, B('RPUSH', 'b', 'vb'), B('RPUSH', 'a', 'va')), ('pump', 2, 500), ('sync',), ('pump', 1, 500), ('pump', 3, 500),
                                                  ('call', 2, B('LRANGE', 'a', 0, -1)), ('call', 2, B('LRANGE', 'b', 0, -1))]))
+    # two waiters whose time-outs are noticed in the SAME scan of the registry (the command thread is kept busy across
+    # both deadlines), with a third waiter queued behind them that must stay registered and be served afterwards
+    for op in ('BLPOP', 'BRPOP'):
+        S.append(('timeouts-same-scan-%s' % op, [('open', 1), ('open', 2), ('open', 3), ('open', 4), ('send', 1, B(op, 'q', '0.15')), ('sync',),
+                                                  ('send', 3, B(op, 'q', '0.2')), ('sync',), ('send', 4, B(op, 'q', 0)), ('sync',),
+                                                  ('call', 2, B('SLEEP', 450)), ('pump', 1, 800), ('pump', 3, 800), ('sync',), ('pump', 4, 50),
+                                                  ('call', 2, B('RPUSH', 'q', 'x')), ('sync',), ('pump', 4, 800), ('call', 2, B('LRANGE', 'q', 0, -1))]))
+    S.append(('timeouts-same-scan-multikey', [('open', 1), ('open', 2), ('open', 3), ('open', 4), ('send', 1, B('BLPOP', 'q', 'r', '0.15')), ('sync',),
+                                              ('send', 3, B('BLPOP', 'r', 'q', '0.2')), ('sync',), ('send', 4, B('BLPOP', 'r', '0.9')), ('sync',),
+                                              ('call', 2, B('SLEEP', 450)), ('pump', 1, 800), ('pump', 3, 800), ('sync',),
+                                              ('call', 2, B('RPUSH', 'r', 'y')), ('sync',), ('pump', 4, 900), ('call', 2, B('LRANGE', 'r', 0, -1))]))
     return S
 
 
